@@ -748,3 +748,76 @@ func runC101(w *lib.Writer) {
 		}
 	}
 }
+
+/* ---------- copyReturnValues (OP_RETURN's window arithmetic) through the hook ---------- */
+
+type CopyRetIn struct {
+	Kind  string `json:"kind"` // "copyret"
+	Cells []int  `json:"cells"`
+	Regv  int    `json:"regv"`
+	Start int    `json:"start"`
+	N     int    `json:"n"`
+	B     int    `json:"b"`
+}
+
+func runCopyRet(w *lib.Writer, in CopyRetIn, class string) {
+	L := lua.NewState(lua.Options{RegistrySize: 256, SkipOpenLibs: true})
+	defer L.Close()
+	e := newCellEnc()
+	for _, v := range in.Cells {
+		L.Push(valGo(v))
+	}
+	// make the cells above the top stale
+	for i := 0; i < 6; i++ {
+		L.Push(lua.LNumber(990 + i))
+	}
+	L.SetTop(len(in.Cells) + 3)
+	L.Pop(3)
+	top := lua.VerifRegTop(L)
+	cells := e.rawRange(L, 0, top)
+	above := e.rawRange(L, top, top+aboveWindow)
+	pad := lua.VerifRegCap(L) - top - len(above)
+	fault := ""
+	func() {
+		defer func() {
+			if r := recover(); r != nil {
+				fault = fmt.Sprint(r)
+			}
+		}()
+		lua.VerifCopyReturnValues(L, in.Regv, in.Start, in.N, in.B)
+	}()
+	ntop := lua.VerifRegTop(L)
+	after := e.rawRange(L, 0, ntop)
+	id := w.Add(lib.Case{Input: in, Observed: map[string]any{"top": ntop, "cells": after}, Class: class,
+		Nontrivial: in.N != in.B-1 && in.Regv < in.Start,
+		Coq: fmt.Sprintf("CCopyRet %s %s %d %s %s %s %s %d %s", lib.CoqList(cells), lib.CoqList(above), pad, z(in.Regv), z(in.Start), z(in.N), z(in.B), ntop, lib.CoqList(after))})
+	if fault != "" {
+		if len(fault) > 150 {
+			fault = fault[:150]
+		}
+		w.GoFail(id, "copyReturnValues panicked: "+fault)
+	}
+}
+
+func genCopyRet(r *lib.Rand) CopyRetIn {
+	n := r.Range(0, 12)
+	in := CopyRetIn{Kind: "copyret"}
+	for i := 0; i < n; i++ {
+		v := 100 + i
+		if r.Chance(10) {
+			v = 0
+		}
+		in.Cells = append(in.Cells, v)
+	}
+	in.Regv = r.Intn(n + 1)
+	in.Start = in.Regv + r.Intn(n-in.Regv+1)
+	in.N = r.Intn(8)
+	in.B = r.Pick(3, 2, 2, 2, 1, 1)
+	if in.B > 1 && in.Start+in.B-1 > n {
+		in.B = n - in.Start + 1
+	}
+	if r.Chance(5) && in.Start > 0 {
+		in.Regv = in.Start + r.Range(1, 2) // towards higher registers: outside the return contract, exact in the impl model
+	}
+	return in
+}
